@@ -145,7 +145,7 @@ func (w *seqWorld) apply(i int, op string) {
 			return
 		}
 		_, end := cur[len(cur)-1].Range()
-		if _, _, err := w.db.TickSync(end.Add(-30*time.Minute).UnixNano(), 3*time.Minute); err != nil {
+		if err := w.db.TickAndWait(end.Add(-30*time.Minute).UnixNano(), 3*time.Minute); err != nil {
 			fmt.Println("HARNESS-ERROR:", err)
 			os.Exit(2)
 		}
